@@ -1067,7 +1067,11 @@ class Compiler:
                 return stmts
 
             def visit_TokenRef(self, node: TokenRef) -> ast.AST:
-                self.tokens.append((node.token.pos, len(node.token)))
+                self.tokens.append((
+                    node.token.pos,
+                    len(node.token),
+                    getattr(node.token, "source", None),
+                ))
                 assignment = ast.Assign(
                     [store("__token")],
                     ast.Constant(node.token.pos),
@@ -1077,9 +1081,12 @@ class Compiler:
                 return assignment
 
         generator = Generator(module)
+        # A position refers to the text the token was cut from: for a
+        # template with CR LF line ends that is the body after its
+        # line ends have been normalised, not the body as given.
         tokens = [
-            Token(source[pos:pos + length], pos, source)
-            for pos, length in generator.tokens
+            Token((text or source)[pos:pos + length], pos, text or source)
+            for pos, length, text in generator.tokens
         ]
         token_map_def = "__tokens = {" + ", ".join("%d: %r" % (
             token.pos,
